@@ -76,7 +76,7 @@ def _decide(ex, cond, msg, extra):
         return
     if r == z3.sat:
         m = ex.solver.model()
-        raise Violation(msg, witness_of(ex, m), extra(m) if callable(extra) else extra)
+        raise Violation(msg, witness_of(ex, m), _extra(extra, m))
     s = z3.Solver()
     s.add(ex.solver.assertions())
     s.add(neg)
@@ -104,11 +104,20 @@ def _decide(ex, cond, msg, extra):
                 else:
                     s2.add(c == z3.BitVecVal(wit[n], INT_BITS[ty]))
             if s2.check() == z3.sat:
-                ext = extra(s2.model())
+                ext = _extra(extra, s2.model())
         elif extra is not None:
             ext = extra
         raise Violation(msg, wit, ext)
     raise BoundExceeded('no solver decided the property query within %ds' % ex.env.get('hard_timeout', 120))
+
+
+def _extra(extra, m):
+    if not callable(extra):
+        return extra
+    try:
+        return extra(m)
+    except TypeError:
+        return extra()
 
 
 class Result:
@@ -245,5 +254,6 @@ def replay_native(world, harness, violation, runner):
         except (Unsupported, BoundExceeded) as u:
             details[prof] = 'replay inconclusive: %s' % u
         if 'native_used' not in ex.env:
-            details[prof] += ' [harness has no native hook]'
+            details[prof] = 'no native execution available for this harness (model-only re-run: %s)' % details[prof]
+            confirmed = False
     return confirmed, details
